@@ -12,6 +12,10 @@ atom only says "may".  Guard rules therefore additionally require a syntactic co
 from collections import defaultdict
 
 SIZE_METHODS = {"size", "empty", "length"}
+# non-const members that only hand out a reference / pointer / view: writes through the result are seen at the
+# assignment, the call itself changes nothing
+ACCESS_METHODS = {"operator[]", "operator()", "data", "begin", "end", "at", "front", "back", "operator*", "operator->",
+                  "get", "rbegin", "rend", "slice", "cbegin", "cend"}
 
 
 def is_container_type(t):
@@ -35,7 +39,8 @@ class Flow:
         self.control = control
         self.max_depth = max_depth
         self.parm_ids = {p["id"]: p for p in fn.params}
-        self.env = defaultdict(set)       # local decl id -> atoms
+        self.env = defaultdict(set)       # local decl id -> atoms (contents and shape)
+        self.shape = defaultdict(set)     # local decl id -> atoms its *element count* may depend on
         self.roots = defaultdict(set)     # local decl id -> storage roots
         self._solve()
 
@@ -53,10 +58,10 @@ class Flow:
             # lambda parameter: bound at the call, unknown here
             return set(self.env.get(d["id"], ()))
         if k == "local" or k == "binding":
-            s = self.env.get(d["id"], set())
-            if size_only:
-                return {(a[0], a[1], "size") if a[2] == "content" else a for a in s if a[2] != "content" or True}
-            return set(s)
+            if size_only and is_container_type(d.get("dt", "")):
+                # element writes (v[i] = e) do not change the element count: use the shape environment
+                return {(a[0], a[1], "size") if a[2] == "content" else a for a in self.shape.get(d["id"], set())}
+            return set(self.env.get(d["id"], set()))
         if k == "global":
             return {("global", d.get("qn", d["n"]), "val")}
         if k == "field":
@@ -206,13 +211,16 @@ class Flow:
                         out |= self.deps(r, True)
         return out
 
-    def _assign(self, target, atoms, ctx_node):
-        """target: lvalue node; adds atoms to every local it may denote"""
+    def _assign(self, target, atoms, ctx_node, whole=None, shape_atoms=None):
+        """target: lvalue node; adds atoms to every local it may denote.  An element write (v[i] = e, *p = e,
+        v.f = e) updates the contents only; a whole-object write (v = e, v.resize(n)) also the shape."""
         changed = False
         t = target.strip_all()
         ids = set()
         for x in _lvalue_locals(t):
             ids.add(x)
+        if whole is None:
+            whole = t.k == "DeclRefExpr"
         if self.control:
             atoms = atoms | self._control_atoms(ctx_node)
         for i in ids:
@@ -220,6 +228,11 @@ class Flow:
             self.env[i] |= atoms
             if len(self.env[i]) != before:
                 changed = True
+            if whole:
+                before = len(self.shape[i])
+                self.shape[i] |= (atoms if shape_atoms is None else shape_atoms)
+                if len(self.shape[i]) != before:
+                    changed = True
         return changed
 
     def _solve(self):
@@ -237,6 +250,9 @@ class Flow:
                             a = a | self._control_atoms(n)
                         if not a <= self.env[d["id"]]:
                             self.env[d["id"]] |= a
+                            changed = True
+                        if not a <= self.shape[d["id"]]:
+                            self.shape[d["id"]] |= a
                             changed = True
                         if is_alias_type(n.get("ts") or n.type, n.tc) or is_alias_type(n.type, n.tc):
                             r = self.root(n.c[0])
@@ -294,16 +310,24 @@ class Flow:
                         mode = pm[i] if i < len(pm) else "val"
                         if mode in ("ref", "ptr"):
                             targets.append(a)
-                    if obj is not None and "cls" in ce and not ce.get("const") and n.k != "CXXConstructExpr":
+                    if (obj is not None and "cls" in ce and not ce.get("const") and n.k != "CXXConstructExpr"
+                            and (ce.get("qn") or "").rsplit("::", 1)[-1] not in ACCESS_METHODS):
                         targets.append(obj)
                     if targets:
-                        allat = set()
-                        for a in args:
-                            allat |= self.deps(a)
+                        parts = [(a, self.deps(a)) for a in args]
                         if obj is not None:
-                            allat |= self.deps(obj)
+                            parts.append((obj, self.deps(obj)))
+                        allat = set()
+                        for (_, d_) in parts:
+                            allat |= d_
                         for t in targets:
-                            changed |= self._assign(t, allat, n)
+                            # the element count of t can change with the *other* arguments (v.resize(n), f(v, n)),
+                            # not with its own previous contents
+                            others = set()
+                            for (a, d_) in parts:
+                                if a.id != t.id:
+                                    others |= d_
+                            changed |= self._assign(t, allat, n, whole=True, shape_atoms=others)
             if not changed:
                 break
 
